@@ -13,6 +13,7 @@ import Tup.Spec.Decode
     stream disp:<x>:<y>|-:<save>:<lf> <ph> <mode> <fmt>   -> ok hex         (to_stream dispatch)
     dispmode <fewer>                                      -> a256i a256p skip first other
     getfmt none | idx <n> | rgb <r> <g> <b>               -> none | hex
+    display <ph> <fewer> none|idx:<n>|rgb:<r>:<g>:<b> <x>:<y>|- <lf> br|tr|tl|bl  -> ok hex   (display_only)
   where <ph> = id pid startCol startRow endCol endRow (integers, may be negative),
         <mode> = a256i a256p skip first other,
         <fmt> = n | b=<hex> | r=<defaulthex>[/<row>:<hex>…] | c=<defaulthex>[/<col>.<row>:<hex>…].
@@ -126,6 +127,21 @@ def handle : List String → String
           | some x => outBytes x
           | none => "bad")
       | _, _, _ => "bad"
+  | ["display", a, b, c, d, e, f, fewer, bg, pos, lf, fp] =>
+      let bg? : Option Background := match bg.splitOn ":" with
+        | ["none"] => some .none
+        | ["idx", n] => n.toNat?.map .idx
+        | ["rgb", r, g, bl] => do pure (.rgb (← r.toNat?) (← g.toNat?) (← bl.toNat?))
+        | _ => none
+      let pos? : Option (Option (Nat × Nat)) := match pos.splitOn ":" with
+        | ["-"] => some none
+        | [x, y] => do pure (some (← x.toNat?, ← y.toNat?))
+        | _ => none
+      let fp? : Option FinalPos := match fp with
+        | "br" => some .bottomRight | "tr" => some .topRight | "tl" => some .topLeft | "bl" => some .bottomLeft | _ => none
+      match parsePh [a, b, c, d, e, f], b? fewer, bg?, pos?, b? lf, fp? with
+      | some r, some fewer, some bg, some pos, some lf, some fp => outBytes (displayOnly r fewer bg pos lf fp)
+      | _, _, _, _, _, _ => "bad"
   | ["dispmode", fewer] => match b? fewer with
       | some f =>
           let m := displayMode f
